@@ -533,8 +533,13 @@ def run(ctx):
     ml = ctx.extract("C02/Extract.v", ["C02/extracted/rbt.ml", "C02/extracted/rbt.mli"])
     mbin = ctx.ocaml_build("rbt_mdrv", [ml[1], ml[0], HARN / "rbt_mdrv.ml"])
     runner = Runner(ctx, cbin, mbin)
-    cbin1 = build_unpacked(ctx)
-    runner1 = Runner(ctx, cbin1, mbin, "unpacked (A_SIZE_POINTER 1)")
+    try:
+        cbin1 = build_unpacked(ctx)
+        runner1 = Runner(ctx, cbin1, mbin, "unpacked (A_SIZE_POINTER 1)")
+    except vlib.CheckError as e:
+        cbin1 = runner1 = None
+        ctx.tie_broken("the unpacked configuration (A_SIZE_POINTER 1: separate parent/color fields) of rbt.c no longer builds: "
+                       + " ".join(str(e).split())[-400:])
 
     batches = build_batches(ctx, mbin)
     ctx.log("generated %d batches, %d cases" % (len(batches), sum(len(c) for _, c in batches)))
@@ -576,7 +581,7 @@ def run(ctx):
                 suspects.append(("batch %s case %d" % (name, j), cs[j], runner))
 
     # the unpacked configuration against the same model output, on a subset of the batches
-    jobs1 = [(name, text, cbin1, None, tmo) for (name, text, _, _, tmo) in jobs if name in m_keep]
+    jobs1 = [(name, text, cbin1, None, tmo) for (name, text, _, _, tmo) in jobs if name in m_keep and cbin1 is not None]
     n_unpacked = 0
     with ThreadPoolExecutor(max_workers=min(vlib.NPROC, 12)) as ex:
         for name, rc_c, c_out, _, _, _ in ex.map(run_batch, jobs1):
@@ -638,7 +643,7 @@ def run(ctx):
     kinds, checked = set(), 0
     import time
     t_stop = time.time() + (60 if ctx.quick else 240)
-    for origin, ops, rn in suspects + [(o, c, runner) for o, c in pool] + [(o + " (unpacked configuration)", c, runner1) for o, c in pool[:25]]:
+    for origin, ops, rn in suspects + [(o, c, runner) for o, c in pool] + ([(o + " (unpacked configuration)", c, runner1) for o, c in pool[:25]] if runner1 else []):
         if time.time() > t_stop and (kinds or not ctx.broken_ties):
             break
         if not well_formed(ops):
@@ -687,3 +692,18 @@ def replay(ctx, path):
         return 0
     print("replay: STILL FAILING at op %d: %s: %s" % (f[0], f[1], f[2]))
     return 1
+
+
+META = {
+    "text": "Rocq theorems for ALL finite insert/remove/search histories from the empty tree over all key sets: root black, no "
+            "red node has a red child, equal black count on every root-to-null path, BST, exact refinement of an abstract "
+            "key->node map (duplicate insert returns the resident and leaves the tree equal, search finds iff present), "
+            "canonical heap has consistent parent links, no fault reachable (the A_ASSUME facts of a_rbt_remove_adjust - sibling "
+            "non-null under deficit - are lemmas), removal invariant 'deficit => black height one less', logarithmic height. "
+            "Tie: extracted model vs the real a_rbt_insert/remove/search: left/right/parent/colour/root/return value after EVERY "
+            "operation under ASan+UBSan (packed and unpacked parent configurations), exhaustive small histories + random.",
+    "note": "Trusted: Coq kernel; extraction (ExtrOcamlBasic only) + drivers; the recursive status-upward model stands for the "
+            "C's bottom-up loops and the pointer surgery is not modelled statement by statement - both are transferred to the C "
+            "by the exact per-operation heap comparison (checked on the generated histories, not proved). No axioms.",
+    "technique": "Rocq proof (structural induction, colour/black-height invariants, refinement to an abstract map) + extracted-model vs C exact heap correspondence",
+}
